@@ -37,6 +37,10 @@ def models():
     st = gen.tube_surface(crm(), symmetry=True, name="wing", struct_weight_relief=True, with_viscous=True, t_over_c_cp=np.array([0.12, 0.12]), twist_cp=np.array([2.0, 3.0]), thickness_cp=np.array([0.05, 0.05, 0.06]))
     out.append(("AerostructPoint: tube, weight relief", structs.build_aerostruct([st])))
     out.append(("AerostructPoint: tube, compressible", structs.build_aerostruct([st], compressible=True)))
+    out.append(("AerostructPoint: tube, rotational", structs.build_aerostruct([st], point_kw={"rotational": True})))
+    st2 = dict(gen.tube_surface(crm(), symmetry=True, name="tail", struct_weight_relief=True, with_viscous=True, t_over_c_cp=np.array([0.1]), twist_cp=np.array([0.0, 0.0]), thickness_cp=np.array([0.02, 0.02])))
+    st2["mesh"] = st2["mesh"] + np.array([40.0, 0.0, 2.0])
+    out.append(("AerostructPoint: two tube surfaces", structs.build_aerostruct([st, st2])))
     sw = gen.wingbox_surface(crm(), symmetry=True, name="wing", struct_weight_relief=True, distributed_fuel_weight=True, with_wave=True, with_viscous=True,
                              t_over_c_cp=np.array([0.12, 0.12]), twist_cp=np.array([2.0, 3.0]), spar_thickness_cp=np.array([0.006, 0.007]), skin_thickness_cp=np.array([0.012, 0.013]))
     out.append(("AerostructPoint: wing box, fuel and weight relief", structs.build_aerostruct([sw])))
